@@ -23,6 +23,24 @@ CLAIMED = {
         note="Trusted: Coq kernel; Spec/Rfc9000.v as a transcription of the RFC pseudo-code (twin-checked); the correspondence harness (stub session object) and extraction/driver.",
         technique="Coq proof (Z arithmetic: mask lemmas + nia) + boundary-dense model/implementation correspondence",
         design="3 C16"),
+    "C17": dict(
+        text="Proof (partial): Coq theorems C17_terminates (forall byte strings: parse_frames never exhausts its length+1 fuel, i.e. the Python loop terminates, "
+             "because every frame class yields length >= 1 on the regenerated dispatch table) and C17_no_invention (every data field of every returned frame is a "
+             "contiguous piece of the packet); closed under the global context. The exact-split (round-trip) half is decided in this revision by the structured "
+             "stream (reference encoder, all varint widths and flag combinations) run through model and implementation; its Coq theorem is future work.",
+        note="Trusted: Coq kernel; py2coq G1 (dispatch dict, class constants); hand-written models of the 22 frame constructors tied by correspondence (structured + "
+             "malformed streams, every byte string of length <= 2); reference encoder tools/ref/quic_frames_ref.py.",
+        technique="Coq proof (invariant on the reader state, well-founded induction on payload length) + model/implementation correspondence",
+        design="3 C17"),
+    "C11": dict(
+        text="Proof: Coq theorems C11_tcp / C11_udp: for every well-formed abstract packet (IPv4/IPv6, any length, any bytes) the model of calculate_checksum_* "
+             "answers exactly RFC 1071 verification (one's-complement sum of pseudo-header and segment including the checksum field is 0xFFFF), spec given as a "
+             "fold of end-around-carry additions; closed under the global context. Model tied to checksums.py by correspondence on boundary-steered frames. "
+             "The capture-level filter equation is stated on the main-loop model once that exists; end-to-end runs validate it meanwhile.",
+        note="Trusted: Coq kernel; Spec/Rfc1071.v; the abstract packet (dpkt parsing modelled, not verified; no IPv6 extension headers; UDP/IPv4 checksum 0 excluded); "
+             "tools/ref/synth.py frame builder; extraction/driver.",
+        technique="Coq proof (mod-65535 arithmetic with lia + Euclidean hooks, word-splitting lemmas) + boundary-steered correspondence",
+        design="3 C11"),
 }
 
 NOT_YET = "not claimed yet in this revision: model and theorems under construction (see DESIGN.md section 7)"
